@@ -329,6 +329,10 @@ def main():
                 fallback("extract: %s" % e, "anchor lost: %s" % e)
             undecided("extract: %s" % e)
     report = do_extract()
+    for st in report.get("stale_fields", []):
+        if pid in st["props"]:
+            fallback("contract-stale: fields of struct %s are %s, the contract (%s) was written for %s" % (st["struct"], st["have"], st["origin"], st["want"]),
+                     "contract stale: struct %s has a field list the contract was not written for" % st["struct"])
     lib = ensure_shim(build_root)
     gen_src = open(gen).read()
     cheats = scan_cheats(gen_src)
